@@ -240,3 +240,43 @@ def register(op, g):
         return op(f)
     _old_register(op2, g)
     _register2(op2, g)
+
+
+def _register3(op, g):
+    import marshal, tempfile, os
+    import mcanon
+    unhex, tohex = g["unhex"], g["tohex"]
+
+    @op
+    def marshal_loads(a):
+        """marshal.load of this interpreter on the byte string: canonical tree + bytes consumed"""
+        data = unhex(a["hex"]) if a["hex"] != "-" else b""
+        fd, path = tempfile.mkstemp()
+        os.write(fd, data)
+        os.close(fd)
+        try:
+            f = open(path, "rb")
+            try:
+                v = marshal.load(f)
+                pos = f.tell()
+            finally:
+                f.close()
+        finally:
+            os.unlink(path)
+        return {"tree": mcanon.tree(v, PY), "consumed": pos}
+
+    @op
+    def marshal_dumps(a):
+        """marshal.dumps(eval(expr), version)"""
+        v = eval(a["expr"])
+        if a.get("version") is None:
+            return tohex(marshal.dumps(v))
+        return tohex(marshal.dumps(v, a["version"]))
+
+
+_old_register2 = register
+
+
+def register(op, g):  # noqa: F811
+    _old_register2(op, g)
+    _register3(op, g)
